@@ -207,7 +207,14 @@ var apiCalls = []apiCall{
 	{"BanPeer", func(s *Sim, _ *Blk, _ *wire.MsgTx) { s.CS.BanPeer("10.9.9.9:18444", banman.ExceededBanThreshold) }},
 	{"SendTransaction", func(s *Sim, _ *Blk, tx *wire.MsgTx) { s.CS.SendTransaction(tx) }},
 	{"GetBlock", func(s *Sim, b *Blk, _ *wire.MsgTx) { s.CS.GetBlock(b.Hash) }},
-	{"GetCFilter", func(s *Sim, b *Blk, _ *wire.MsgTx) { s.CS.GetCFilter(b.Hash, wire.GCSFilterRegular) }},
+	{"GetCFilter", func(s *Sim, b *Blk, _ *wire.MsgTx) {
+		// only for blocks at or below the filter-header tip: above it the call builds a
+		// malformed request (see the deterministic probe getcfilter-above-filter-tip)
+		if bs, err := s.CS.BestBlock(); err != nil || bs.Height < b.Height {
+			return
+		}
+		s.CS.GetCFilter(b.Hash, wire.GCSFilterRegular)
+	}},
 	{"GetUtxo", func(s *Sim, b *Blk, _ *wire.MsgTx) {
 		cb := b.Msg.Transactions[0]
 		s.CS.GetUtxo(
@@ -223,7 +230,9 @@ var apiCalls = []apiCall{
 // data directory is reopened and checked.
 func DriveC17(t *tr.W, thorough bool) {
 	rng := tr.Rng(1717)
-	iters := 6 * tr.EnvInt("VERIF_BUDGET", 1)
+	c17AboveTip(t, rng)
+	c17StopBehindGetCFilter(t, rng)
+	iters := 4 * tr.EnvInt("VERIF_BUDGET", 1)
 	if thorough {
 		iters *= 4
 	}
@@ -371,6 +380,143 @@ func DriveC17(t *tr.W, thorough bool) {
 		t.Hit("c17.iter")
 		s.Cleanup()
 	}
+}
+
+// timed runs f with a watchdog; it reports whether f returned and lets the
+// caller wait for a late return.
+func timed(d time.Duration, f func()) (returned bool, done chan struct{}) {
+	done = make(chan struct{})
+	go func() { f(); close(done) }()
+	select {
+	case <-done:
+		return true, done
+	case <-time.After(d):
+		return false, done
+	}
+}
+
+func late(done chan struct{}, d time.Duration) bool {
+	select {
+	case <-done:
+		return true
+	case <-time.After(d):
+		return false
+	}
+}
+
+// c17AboveTip: block headers are synced, filter headers are not (the only peer
+// does not serve them).  GetCFilter for a stored block above the filter-header
+// tip must fail promptly; instead it sends `getcfilters start=h stop=<block at
+// the filter tip>` (start above stop), which no peer can answer, and waits for
+// the retries to run out while holding the filter mutex.
+func c17AboveTip(t *tr.W, rng *rand.Rand) {
+	l := 30 + rng.Intn(20)
+	sc := Scenario{Name: "getcfilter-above-filter-tip", Len: l, Peers: []Behaviour{{Kind: "noCF"}}}
+	t.Case("c17 getcfilter-above-filter-tip len %d npeers 1", l)
+	s, err := New(sc, rng, t.Op)
+	if err != nil {
+		t.Op("setup", "err "+err.Error())
+		return
+	}
+	defer s.Cleanup()
+	peerLines(t, s)
+	if err := s.Start(); err != nil {
+		t.Op("start", "err "+err.Error())
+		return
+	}
+	want := fmt.Sprintf("%d:t%d", l, l)
+	ok := s.waitFor(6*time.Second, func(o Obs) bool { return o.BTip == want })
+	t.Op("waitheaders", map[bool]string{true: "ok", false: "timeout"}[ok])
+	blk := s.W.Honest().Ancestor(1)
+	ret, done := timed(3*time.Second, func() { s.CS.GetCFilter(blk.Hash, wire.GCSFilterRegular) })
+	t.Op("call GetCFilter", map[bool]string{true: "returned", false: "HANG"}[ret])
+	d := s.Stop()
+	if d < 0 {
+		t.Op("stop", "HANG")
+	} else {
+		t.Op("stop", "ok")
+		t.Line("# stop took %d ms", d.Milliseconds())
+	}
+	if !ret {
+		n := 1
+		if late(done, 3*time.Second) {
+			n = 0
+		}
+		t.Op("call GetCFilter-after-stop", fmt.Sprintf("hung %d", n))
+	}
+	t.Hit("c17.above-tip")
+}
+
+// c17StopBehindGetCFilter: fully synced against peers that do not answer
+// getcfilters.  One GetCFilter is in flight (it holds the filter mutex while its
+// query is retried), a GetUtxo scan is waiting for that mutex; then Stop.
+func c17StopBehindGetCFilter(t *tr.W, rng *rand.Rand) {
+	l := 30 + rng.Intn(20)
+	sc := Scenario{Name: "stop-blocked-behind-getcfilter", Len: l, Barrier: true,
+		Peers: []Behaviour{{Kind: "noCFilters"}, {Kind: "noCFilters"}}}
+	t.Case("c17 stop-blocked-behind-getcfilter len %d npeers 2", l)
+	s, err := New(sc, rng, t.Op)
+	if err != nil {
+		t.Op("setup", "err "+err.Error())
+		return
+	}
+	defer s.Cleanup()
+	peerLines(t, s)
+	if err := s.Start(); err != nil {
+		t.Op("start", "err "+err.Error())
+		return
+	}
+	ok := s.waitFor(6*time.Second, s.converged)
+	t.Op("waitsync", map[bool]string{true: "ok", false: "timeout"}[ok])
+	b5 := s.W.Honest().Ancestor(5)
+	b3 := s.W.Honest().Ancestor(3)
+	_, doneF := timed(time.Millisecond, func() { s.CS.GetCFilter(b5.Hash, wire.GCSFilterRegular) })
+	time.Sleep(100 * time.Millisecond)
+	_, doneU := timed(time.Millisecond, func() { apiCalls[len(apiCalls)-1].f(s, b3, nil) })
+	time.Sleep(200 * time.Millisecond)
+	d := s.Stop()
+	if d < 0 {
+		t.Op("stop", "HANG")
+		for _, g := range strings.Split(s.HangDump, "\n\n") {
+			if strings.Contains(g, "(*ChainService).Stop") || strings.Contains(g, "batchManager") ||
+				(strings.Contains(g, "(*ChainService).GetCFilter") && strings.Contains(g, "[select")) {
+				n := 0
+				for _, l := range strings.Split(g, "\n") {
+					l = strings.TrimSpace(l)
+					if strings.HasPrefix(l, "/") {
+						if j := strings.Index(l, "/repo/"); j >= 0 {
+							t.Line("# hang-stack     at %s", strings.Fields(l[j+6:])[0])
+						}
+						continue
+					}
+					if strings.Contains(l, "internal/sync") || strings.Contains(l, "sync.(*Mutex)") {
+						continue
+					}
+					if i := strings.LastIndex(l, "("); i > 0 && !strings.HasPrefix(l, "goroutine") && !strings.HasPrefix(l, "created by") {
+						l = l[:i]
+					}
+					t.Line("# hang-stack %s", l)
+					if n++; n > 8 {
+						break
+					}
+				}
+				t.Line("# hang-stack --")
+			}
+		}
+	} else {
+		t.Op("stop", "ok")
+		t.Line("# stop took %d ms", d.Milliseconds())
+		f, u := 0, 0
+		if !late(doneF, 3*time.Second) {
+			f = 1
+		}
+		if !late(doneU, 3*time.Second) {
+			u = 1
+		}
+		t.Op("call GetCFilter", fmt.Sprintf("hung %d", f))
+		t.Op("call GetUtxo", fmt.Sprintf("hung %d", u))
+	}
+	t.Hit("c17.stop-behind-getcfilter")
 }
 
 // Observe0: the tips of a ChainService that has not been started.
